@@ -1,7 +1,7 @@
 (* Executable wrappers for the C01 verdict model (instantiated at Qc).
    Matrices that are used more than once are materialised ([freeze]); the PSD decision runs through the memoised
-   [psd_fast] of Exec/Core_ops.v.  The lemmas at the end show that the executed functions coincide with the
-   model's ( [x_*_eq] ), using the extensionality lemmas of Proofs/C01_Verdicts.v. *)
+   [psd_fast] of Exec/Core_ops.v.  Proofs/C01_Exec.v proves that every op returns exactly the model's verdicts on the
+   decoded request ( [op_state_spec], [op_povm_spec], [op_gate_spec], [op_gate_tp_spec], [op_mprocess_spec] ). *)
 From Coq Require Import ZArith QArith Qcanon List Bool Arith Lia.
 From QV.Core Require Import OF QcOF Sums Mat Cplx Psd.
 From QV.Exec Require Import Base Core_ops.
@@ -97,6 +97,17 @@ Definition op_gate : opfun := fun zs qs =>
           ++ (if zb wc then flat_of_cmat (d * d) (d * d) Ch else []))
   | _, _ => Err (-1) end.
 
+(* ---- both branches of gate.is_tp only (no Choi matrix, no PSD decision).  zs = [d]  qs = a_row :: a_trace :: basis ++ HS
+        -> [first-row branch at tolerance a_row; trace branch at tolerance a_trace] *)
+Definition op_gate_tp : opfun := fun zs qs =>
+  match zs, qs with
+  | [d], a_row :: a_trace :: l =>
+      let d := Z.to_nat d in let nb := (2 * (d * d) * (d * d))%nat in
+      let B := basis_of_flat d (firstn nb l) in
+      let HS := rmat_of_flat (d * d) (d * d) (skipn nb l) in
+      Ok [qb (gate_is_tp_row d HS a_row); qb (gate_is_tp_trace d B HS a_trace)]
+  | _, _ => Err (-1) end.
+
 (* ---- MProcess.  zs = [d; m; flag; eq_none; ineq_none; required]  qs = st :: aeq :: aineq :: basis ++ hss
         -> [eq; ineq; physical; raises] *)
 Definition op_mprocess : opfun := fun zs qs =>
@@ -134,4 +145,4 @@ Definition op_origin : opfun := fun zs qs =>
 
 Definition C01_ops : optable :=
   [ ("c01.state"%string, op_state); ("c01.povm"%string, op_povm); ("c01.gate"%string, op_gate);
-    ("c01.mprocess"%string, op_mprocess); ("c01.origin"%string, op_origin) ].
+    ("c01.mprocess"%string, op_mprocess); ("c01.origin"%string, op_origin); ("c01.gate_tp"%string, op_gate_tp) ].
